@@ -116,6 +116,15 @@ func parseTimestamp(lt lokiapi.LokiTime, def time.Time) (time.Time, error) {
 		return def, nil
 	}
 
+	if sec, frac, ok := strings.Cut(value, "."); ok && isDigits(sec) && isDigits(frac) && len(frac) <= 9 {
+		// Decimal seconds: every digit of the fraction counts, down to the nanosecond
+		// (float64 cannot hold them all).
+		s, serr := strconv.ParseInt(sec, 10, 64)
+		ns, nerr := strconv.ParseInt(frac+strings.Repeat("0", 9-len(frac)), 10, 64)
+		if serr == nil && nerr == nil {
+			return time.Unix(s, ns), nil
+		}
+	}
 	if strings.Contains(value, ".") {
 		if t, err := strconv.ParseFloat(value, 64); err == nil {
 			s, ns := math.Modf(t)
@@ -131,6 +140,19 @@ func parseTimestamp(lt lokiapi.LokiTime, def time.Time) (time.Time, error) {
 		return time.Unix(nanos, 0), nil
 	}
 	return time.Unix(0, nanos), nil
+}
+
+// isDigits reports whether s is a non-empty string of ASCII digits.
+func isDigits(s string) bool {
+	if s == "" {
+		return false
+	}
+	for i := 0; i < len(s); i++ {
+		if s[i] < '0' || s[i] > '9' {
+			return false
+		}
+	}
+	return true
 }
 
 func parseStep(param lokiapi.OptPrometheusDuration, start, end time.Time) (time.Duration, error) {
